@@ -17,6 +17,11 @@ CLAIMED = {
     text='Decides: all 256 CRC table entries equal the remainder of i*x^24 by the Mode S generator; a frame goes on to DF decoding only in states that exclude DF 17 or have checksum 0, and the CRC error is raised only with id 17 and checksum >= 1; the checksum is computed over all 7/14 frame bytes in order and is the value stored as Message.crc and as the address/parity field of DF 0, 4, 5, 16, 20, 21; index obligations of modes_checksum; no error exit of the DF reader is reachable for a complete frame of an address/parity format (every payload yields its address). Does NOT decide that the byte loop computes polynomial division, nor the 1-2 bit / 24-bit burst clause (algebra over all frames).',
     note='Static rule check, clause-limited as stated. Trusted: rustc constant evaluation and MIR, deku read contracts, the abstract interpreter.',
     ref='DESIGN.md §7 C02'),
+ 'C03': dict(level='other', engine='absint+dataflow',
+    technique='modular abstract interpretation of every deku reader from bit 0 of a synthetic stream (exact bit positions of primitive reads), MIR dataflow from each read to the field it builds, comparison with a reviewed layout table; path facts at the store of the DF20 BDS 0,5 label; constant tables',
+    text='Layout: for 48 decode types (DF headers, ADS-B ME dispatcher, BDS 0,5 0,6 0,8 0,9 (+3 subtypes) 1,0 1,7 1,8 1,9 2,0 3,0 4,0 4,4 4,5 5,0 6,0 6,1 6,2 6,5 and their sub-structures, AC13/ID13/ICAO fields; 440 fields) each decoded field is built from exactly the bits the standard assigns to it, other bits flow in only as the listed status / sign / type-code dependencies, the bits read and dropped are the reserved ones, and every nested register starts at the tabulated bit of its dispatcher. Characters: both 6-bit tables equal Annex 10 at the 37 defined codes. DF20: every store of Some into DF20DataSelector.bds05 is under the fact payload altitude == header altitude; DF21DataSelector.bds05 is never Some.',
+    note='Static rule check: necessary conditions of the round trip (right bits, right dependencies, right table), not the round trip. Scale / offset arithmetic is decided only as far as C08 (ranges, steps) and C13 (altitude, squawk codes) go. spec/layouts.json was generated from the pinned tree and reviewed against the field tables of ICAO Doc 9871 / DO-260B (DESIGN.md §7 C03); BDS 2,1 and DF19/DF24 are exempt by name.',
+    ref='DESIGN.md §7 C03'),
  'C04': dict(level='other', engine='absint',
     technique='decision-list extraction from branch facts (path enumeration of a comparison-only function) compared with the NL formula; parity facts and float intervals at the result construction sites',
     text='Decides: nl() is, for every latitude (both signs, NaN), the 59-band NL table whose breakpoints equal the formula to the table\'s 8 decimals; airborne_position builds a position only in states where the two reports have opposite parity (both orders), only on paths that passed the guard NL(returned latitude) = NL(other latitude), the returned latitude interval is within [-90, 90], neither coordinate can be NaN, and its integer arithmetic cannot panic. Does NOT decide the 10 m accuracy, longitude in [-180, 180), nor the converse "None only when the NL bands differ".',
